@@ -52,6 +52,9 @@ Selectors == {"same", "none", "shift", "firstonly", "extra"}
 \* OWN species list
 \* DataTypes: besides 32-bit integers, floats and strings the field sets hold 64-bit integers - scalar, per thrust mode and
 \* per point - with values beyond 2^53 (which no float64 can hold): they read back as the same integers
+\* "extremes": every value of a field's type other than the container's marker for "never written" is a value - floats
+\* beyond 1e37 and +inf, the smallest 32- and 64-bit integers, a species value of 1e300 read back as written (the
+\* harness gives them to the second trajectory of every second case)
 \* "save_retry": an in-memory store whose first save - asking for an associated file at a path that cannot be
 \* created - is refused, then saved into one file: a refused save leaves nothing behind that a later save sees
 Layouts == {"single", "assoc_at_create", "create_associated", "save_from_memory", "save_retry", "evicted", "split", "split_assoc"}
